@@ -159,6 +159,10 @@ def parse_tlc_output(text, res):
     m = re.search(r'Error: Action property (\S+) is violated', text)
     if m:
         res.violated = m.group(1)
+    # an action property that is part of an instantiated specification (refinement check) is reported by its location
+    m = re.search(r'Error: Action property line \d+, col \d+ to line \d+, col \d+ of module (\S+) is violated', text)
+    if m and res.violated is None:
+        res.violated = 'action-property-of-' + m.group(1)
     m = re.search(r'Error: Temporal properties were violated', text)
     if m:
         res.violated = res.violated or 'temporal'
